@@ -23,6 +23,10 @@ claimed = {
    text="Proof obligations over the real tables and the real cell code: (a) edge-table bits are exactly the sign changes and triangle rows name exactly the crossing edges, (b) interior directed edges cancel within every one of the 256 configurations, (c) for all 3 x 4096 face-adjacent configuration pairs the net face segments of one cell are the reverses of the neighbour's, (d) face segments have the solid corner on the same side as the single-corner anchor whose normal points to the void; mcToTriangles is shown by symbolic execution (corner coordinates and values symbolic, all 256 sign patterns x all degeneracy outcomes) to return exactly the table's triangles with the table's winding minus the ones its degeneracy test rejects; mcInterpolate lies on the lattice edge, is the linear zero crossing, and is symmetric in its end points (so neighbouring cells compute the identical vertex); Degenerate(0) holds iff two vertices coincide. The gluing argument from these lemmas to 'closed oriented surface' is prose (A8(ii)); caller corner/value pairing and padding are not yet under contract.",
    design_ref="8.5",
    technique="contract-based deductive verification: exhaustive ground lemmas over tables read from the working tree's init + symbolic execution of the cell code against the table specification + SMT-discharged contracts on interpolation"),
+ "C07": dict(
+   text="For both the octree (march3x.go) and the quadtree (march2x.go): proved that the distance cache returns the lattice point and the shape's value there and keeps the invariant 'every cached entry is the shape's value at its key' (symbolic map); that the half-diagonal table holds 1/2*sqrt(D)*2^i*resolution; the pruning lemma - for a 1-Lipschitz field, isEmpty(c) implies that at every point of the cube the field has the sign of the centre value (so no lattice cell inside changes sign); and the one-level contract of processCube/processSquare - a pruned cube emits and visits nothing, a finest cube emits exactly the cell of its 2^D lattice corners in table order with the shape's values at those corners, a coarser cube visits each of its 2^D children (origin + 2^(n-1)*delta, level n-1) exactly once and nothing else, recursive calls being summarised by the same contract. The induction over depth, the empty-leaf lemma for all-non-negative / zero-at-a-corner cells and the top-level sizing are prose / not_decided.",
+   design_ref="8.7",
+   technique="contract-based deductive verification: data-structure invariant over a symbolic map, quantified table invariant, proof scripts (assert/generalize/focus) for the Lipschitz pruning lemma, recursion by contract with calls recorded in a ghost log"),
  "C08": dict(
    text="Same structure as C05 in 2D: msEdgeTable bits are the sign changes; in every one of the 16 configurations each crossing edge is an end point of exactly one segment and non-crossing edges of none (degree 2 after gluing, two disjoint segments for saddles); msToLines is shown by symbolic execution to emit exactly the table's segments minus those whose end points coincide; msInterpolate is on the edge, the linear zero crossing, symmetric. Caller pairing, circle bound and perimeter convergence are not_decided.",
    design_ref="8.8",
